@@ -361,7 +361,7 @@ def main(tier):
     chk.cov["informational_vs_exact_cascade"] = info
 
     # ---- 2. code -> spec: float scenarios
-    reps = 4 if quick else 40
+    reps = 10 if quick else 100
     scs = float_scenarios(b, tex, scen, tier, reps)
     fouts = impl([s[2] for s in scs] + [s[3] for s in scs])
     for k, (sid, cls, A, B, Q) in enumerate(scs):
@@ -483,6 +483,11 @@ def main(tier):
                 chk.sample(dict(kind="exact-case", t=c["t"], r=c["r"], fam=c["fam"], rotation=tables["rots"][c["r"] - 1], M_first_row=c["M"][0], K=c["K"], G=c["G"], aniso2=c["aniso2"], event=ev), limit=8)
             else:
                 chk.sample(dict(kind="float-scenario", event=ev), limit=8)
+    if not chk.cov["samples"]:  # nothing passed: the evidence still shows what was evaluated
+        for kind in ("exact", "float"):
+            k = next((k for k, mt in enumerate(meta) if mt["kind"] == kind and mt["nontrivial"]), None)
+            if k is not None:
+                chk.sample(dict(kind=kind + "-evaluation (rejected)", event=events[k]), limit=8)
     chk.cov["verdicts_by_class"] = stats
     for k in sorted(stats):
         print(f"C12 {k}: " + ", ".join(f"{a}={v}" for a, v in stats[k].items()))
